@@ -364,10 +364,12 @@ static bool check_closest(Ctx& c, Pair& P, double x0, double y0, const std::vect
 // ---- All
 static void check_all(Ctx& c, Pair& P, double x0, double y0, double maxdist, const std::vector<XY>& list, bool have_list, bool expect_c0) {
   const Intersect& I = *P.e->in; Intersect::Point p0(x0, y0); std::vector<int> cv, cv2;
-  std::vector<Intersect::Point> v = I.All(P.lX, P.lY, maxdist, cv, p0), v2 = I.All(P.latX, P.lonX, P.aziX, P.latY, P.lonY, P.aziY, maxdist, cv2, p0), v3 = I.All(P.lX, P.lY, maxdist, p0);
+  std::vector<Intersect::Point> v = I.All(P.lX, P.lY, maxdist, cv, p0), v2 = I.All(P.latX, P.lonX, P.aziX, P.latY, P.lonY, P.aziY, maxdist, cv2, p0), v3 = I.All(P.lX, P.lY, maxdist, p0),
+    v4 = I.All(P.latX, P.lonX, P.aziX, P.latY, P.lonY, P.aziY, maxdist, p0);      // the overload without the coincidence vector (never called before the reach monitor said so)
   J w = P.j().f("p0x", x0).f("p0y", y0).f("maxdist", maxdist).i("returned", (long long)v.size());
-  bool same = v.size() == v2.size() && v.size() == v3.size() && cv == cv2 && cv.size() == v.size();
-  for (size_t k = 0; same && k < v.size(); ++k) same = vh::same_bits(v[k].first, v2[k].first) && vh::same_bits(v[k].second, v2[k].second) && vh::same_bits(v[k].first, v3[k].first) && vh::same_bits(v[k].second, v3[k].second);
+  bool same = v.size() == v2.size() && v.size() == v3.size() && v.size() == v4.size() && cv == cv2 && cv.size() == v.size();
+  for (size_t k = 0; same && k < v.size(); ++k) same = vh::same_bits(v[k].first, v2[k].first) && vh::same_bits(v[k].second, v2[k].second) && vh::same_bits(v[k].first, v3[k].first) && vh::same_bits(v[k].second, v3[k].second)
+    && vh::same_bits(v[k].first, v4[k].first) && vh::same_bits(v[k].second, v4[k].second);
   if (!same) c.viol("law:C17/intersect/All/overloads-differ", P.cls, w);
   c.event("All calls judged"); c.event("All: intersections returned", v.size());
   double prev = -1;
